@@ -33,6 +33,8 @@ type Monitor struct {
 	Dropped int
 	// CloseDelay makes Close() of every connection take this long
 	CloseDelay time.Duration
+	// IdleRead: how long a serial Read blocks when no reply byte is readable (a port configured with a read timeout); 0: 300 us
+	IdleRead time.Duration
 	// FlushDelay makes Flush() take this long; Flushes counts calls, FlushDiscarded the unread reply bytes thrown away by them
 	FlushDelay     time.Duration
 	Flushes        int
@@ -168,6 +170,9 @@ func (c *ArrivalConn) Read(p []byte) (int, error) {
 	}
 	if len(c.pending) == 0 || time.Now().Before(c.readyAt) {
 		wait := 300 * time.Microsecond
+		if m.Serial && m.IdleRead > 0 {
+			wait = m.IdleRead
+		}
 		if !m.Serial && !c.deadline.IsZero() {
 			wait = time.Until(c.deadline)
 		}
